@@ -128,6 +128,18 @@ type GCValBig struct {
 	F  int64             `json:"f"`
 	T2 GCTick            `json:"t2"`
 }
+
+// items whose pointer fields are all outside Avro: the decoder never writes them, the application does, afterwards
+type GCItemX struct {
+	A int64   `json:"a"`
+	B float64 `json:"b"`
+	X *int64  `json:"-"`
+	y *string
+}
+type GCShape8 struct {
+	L []GCItemX `json:"l"`
+	Z int64     `json:"z"`
+}
 type GCShape7 struct {
 	M  map[string]GCVal    `json:"m"`
 	MB map[string]GCValBig `json:"mb"`
@@ -169,7 +181,7 @@ func init() {
 }
 
 func gcShapes() []rtCase {
-	return []rtCase{staticOf[GCShape5]("GCShape5"), staticOf[GCShape6]("GCShape6"), staticOf[GCShape7]("GCShape7"), staticOf[GCShape1]("GCShape1"), staticOf[GCShape2]("GCShape2"), staticOf[GCShape3]("GCShape3"), staticOf[GCShape4]("GCShape4"),
+	return []rtCase{staticOf[GCShape5]("GCShape5"), staticOf[GCShape6]("GCShape6"), staticOf[GCShape7]("GCShape7"), staticOf[GCShape8]("GCShape8"), staticOf[GCShape1]("GCShape1"), staticOf[GCShape2]("GCShape2"), staticOf[GCShape3]("GCShape3"), staticOf[GCShape4]("GCShape4"),
 		staticOf[SColl]("SColl"), staticOf[SPtr]("SPtr"), staticOf[STime]("STime")}
 }
 
@@ -211,6 +223,9 @@ type gcResult struct {
 	After     []any  `json:"after"`
 	Err       string `json:"err"`
 	Panic     string `json:"panic"`
+	// what the application stored, after decoding, in fields of decoded values that Avro does not map, read back later
+	Xs     []int64 `json:"xs"`
+	XsWant []int64 `json:"xsWant"`
 	// encode side
 	SchemaText string `json:"schemaText"`
 	Bytes      []int  `json:"bytes"`
@@ -277,6 +292,16 @@ func gcChild(args []string) int {
 					cp := reflect.New(sh.typ).Elem()
 					cp.Set(reflect.NewAt(sh.typ, val).Elem())
 					kept = append(kept, cp)
+					if s8, ok := cp.Addr().Interface().(*GCShape8); ok {
+						// the decoded slice is the application's now: it hangs its own objects on the items
+						for i := range s8.L {
+							x := new(int64)
+							*x = int64(7000 + 10*len(kept) + i)
+							str := fmt.Sprint("own string ", *x)
+							s8.L[i].X, s8.L[i].y = x, &str
+							res.XsWant = append(res.XsWant, *x, int64(len(str)))
+						}
+					}
 					gcNow() // a collection inside the callback
 					res.Delivered = append(res.Delivered, safeProject(cp))
 					if (round+si)%2 == 1 && len(kept)%3 == 2 {
@@ -294,6 +319,18 @@ func gcChild(args []string) int {
 				gcNow() // after the read; the ReadBuf and its bank are gone, the retained banks are still open
 				gcNow()
 				for i, v := range kept {
+					if s8, ok := v.Addr().Interface().(*GCShape8); ok {
+						func() {
+							defer func() {
+								if recover() != nil {
+									res.Xs = append(res.Xs, -1)
+								}
+							}()
+							for j := range s8.L {
+								res.Xs = append(res.Xs, *s8.L[j].X, int64(len(*s8.L[j].y)))
+							}
+						}()
+					}
 					if dropped[i] {
 						res.After = append(res.After, res.Delivered[i]) // nothing to look at any more
 						continue
@@ -447,7 +484,8 @@ func driveC11(c *driverCtx) error {
 						c.rec.Emit(fmt.Sprintf("C11|encode|%s|%s", r["shape"], strings.Join(env, ",")), map[string]any{"op": "gc_write", "schema": sn, "value": r["value"], "bytes": r["bytes"]})
 					} else {
 						c.rec.Emit(fmt.Sprintf("C11|decode|%s|%s|%s", r["shape"], r["codec"], strings.Join(env, ",")), map[string]any{"op": "gc_roundtrip",
-							"inputs": orNil(r["inputs"]), "delivered": orNil(r["delivered"]), "after": orNil(r["after"]), "err": r["err"], "panic": r["panic"]})
+							"inputs": orNil(r["inputs"]), "delivered": orNil(r["delivered"]), "after": orNil(r["after"]), "err": r["err"], "panic": r["panic"],
+							"xs": orNil(r["xs"]), "xsWant": orNil(r["xsWant"])})
 					}
 				}
 			}
